@@ -169,6 +169,23 @@ func HealthySessions(rng *rand.Rand, thorough bool) []Session {
 	out = append(out, hs("sigclose-queued", 3,
 		[]DOp{{Op: "exec", R: "r1", To: true, Pre: 2}, {Op: "awaitws", R: "r1"}, {Op: "aclose"}, {Op: "join", R: "r1"}, {Op: "jclose"}},
 		[]SOp{{Op: "expectws", R: "r1"}, {Op: "expectdone"}, {Op: "done", R: "r1", X: 1}}))
+	// Re-run of the same run ID at delivery time. An entry exists from the registration until its
+	// caller has COLLECTED the result, not merely until the result is stored: a second Execute with
+	// that run ID issued in between must be refused as a duplicate (or, once the first call has
+	// collected, be a run of its own), and both calls must return. The second call is issued (a) by
+	// the director as soon as the answer has been decoded, (b) by the consumer of signalsFromStep when
+	// that channel is closed - which the client does in the very critical section that stores the
+	// result. The scripted server answers a second work-start if one comes.
+	out = append(out, hs("rerun-at-delivery", 3,
+		[]DOp{{Op: "exec", R: "r1"}, {Op: "awaitsent", N: 2}, {Op: "exec", R: "r1"}, {Op: "join", R: "r1"}, {Op: "mark", N: 1}, {Op: "joinall"}, {Op: "close"}},
+		[]SOp{{Op: "expectws", R: "r1"}, {Op: "done", R: "r1", X: 1}, {Op: "expectwsn", R: "r1", N: 2}, {Op: "doneifn", R: "r1", N: 2, X: 2}, {Op: "expectdone"}}))
+	out = append(out, hs("rerun-reissue", 3,
+		[]DOp{{Op: "exec", R: "r1", From: true, Reissue: true}, {Op: "awaitexecs", N: 2}, {Op: "joinall"}, {Op: "mark", N: 1}, {Op: "close"}},
+		[]SOp{{Op: "expectws", R: "r1"}, {Op: "sig", R: "r1"}, {Op: "done", R: "r1", X: 1}, {Op: "expectwsn", R: "r1", N: 2}, {Op: "doneifn", R: "r1", N: 2, X: 2}, {Op: "expectdone"}}))
+	out = append(out, hs("rerun-reissue-overlap", 3,
+		[]DOp{{Op: "exec", R: "r2"}, {Op: "exec", R: "r1", From: true, Reissue: true}, {Op: "awaitexecs", N: 3}, {Op: "joinall"}, {Op: "mark", N: 1}, {Op: "close"}},
+		[]SOp{{Op: "expectws", R: "r2"}, {Op: "expectws", R: "r1"}, {Op: "done", R: "r1", X: 1}, {Op: "expectwsn", R: "r1", N: 2}, {Op: "doneifn", R: "r1", N: 2, X: 3},
+			{Op: "done", R: "r2", X: 2}, {Op: "expectdone"}}))
 	// duplicate and blank run IDs
 	out = append(out, hs("duplicate-run", 3,
 		[]DOp{{Op: "exec", R: "r1"}, {Op: "await", N: 2}, {Op: "exec", R: "r1", To: true}, {Op: "join", R: "r1"}, {Op: "mark", N: 1}, {Op: "joinall"}, {Op: "close"}},
@@ -278,6 +295,12 @@ func faultBases() []Session {
 			{Op: "joinall"}, {Op: "exec", R: "r2"}, {Op: "join", R: "r2"}, {Op: "close"}},
 		[]SOp{{Op: "expectws", R: "r1"}, {Op: "expectmark", N: 1}, {Op: "sig", R: "r1"}, {Op: "done", R: "r1", X: 1},
 			{Op: "expectws", R: "r2"}, {Op: "done", R: "r2", X: 2}, {Op: "expectdone"}}), "f-resubmit"))
+	// Close while two runs are pending; after client-done the server still delivers an intact message
+	// that does not complete the last pending run (the answer of the other one); only then does the
+	// stream deliver the rest - or break. The read loop must keep reading for the pending run.
+	out = append(out, unhealthy(hs("", 3,
+		[]DOp{{Op: "exec", R: "r1"}, {Op: "exec", R: "r2"}, {Op: "awaitws", R: "r1"}, {Op: "awaitws", R: "r2"}, {Op: "aclose"}, {Op: "joinall"}, {Op: "jclose"}},
+		[]SOp{{Op: "expectws", R: "r1"}, {Op: "expectws", R: "r2"}, {Op: "expectdone"}, {Op: "done", R: "r1", X: 1}, {Op: "err", R: "r2"}, {Op: "done", R: "r2", X: 2}}), "f-close-pending"))
 	out = append(out, unhealthy(hs("", 1, []DOp{{Op: "exec", R: "r1"}, {Op: "join", R: "r1"}, {Op: "exec", R: "r2"}, {Op: "join", R: "r2"}, {Op: "close"}},
 		[]SOp{{Op: "expect", N: 2}, {Op: "done1", X: 1}, {Op: "expect", N: 3}, {Op: "done1", X: 2}}), "f-v1-serial-2"))
 	return out
@@ -327,8 +350,13 @@ func FaultJobs(rng *rand.Rand, thorough bool) []FaultJob {
 			}
 			out = append(out, FaultJob{Job{Session: base, Transport: tr(), ChunkSeed: rng.Int63(), WriteFailAfter: -1, TimeoutMs: 1500,
 				Fault: &Fault{Kind: "cut", Off: off}}, "c08-cut"})
-			out = append(out, FaultJob{Job{Session: base, Transport: tr(), ChunkSeed: rng.Int63(), WriteFailAfter: -1, TimeoutMs: 1500,
-				Fault: &Fault{Kind: "ioerr", Off: off}}, "c08-ioerr"})
+			// read errors: a plain error value, one that claims Timeout()/Temporary() (expired read
+			// deadline), and one more kind in rotation (see readErrValue of the session driver); every
+			// one of them is returned again by every later Read
+			for _, v := range []byte{0, 1, byte(2 + off%4)} {
+				out = append(out, FaultJob{Job{Session: base, Transport: tr(), ChunkSeed: rng.Int63(), WriteFailAfter: -1, TimeoutMs: 1500,
+					Fault: &Fault{Kind: "ioerr", Off: off, Val: v}}, "c08-ioerr"})
+			}
 			vals := []Fault{{Kind: "xor", Val: 0x01}, {Kind: "xor", Val: 0x80}, {Kind: "xor", Val: 0x20}, {Kind: "set", Val: 0xff}}
 			if thorough {
 				vals = append(vals, Fault{Kind: "xor", Val: 0x02}, Fault{Kind: "xor", Val: 0x04}, Fault{Kind: "set", Val: 0x00}, Fault{Kind: "xor", Val: 0x1f})
